@@ -188,7 +188,9 @@ def sconcat(ex, parts):
     if any(isinstance(p, PathVal) for p in parts):
         # a path text between literals (f"{path}_ck", "{}_ck".format(path)): the same value as path + "_ck"
         if not all(isinstance(p, (str, PathVal)) for p in parts):
-            raise Unsupported("path text formatted together with other symbolic text")
+            # a message text (path together with other symbolic text): opaque - it is not a path any more, so every later use
+            # of it AS a path (open, join, makedirs ...) is unsupported, and as a message it carries no obligation
+            return SStr([NameAtom(Opaque("text_mentioning_a_path", "str"), nows=False)])
         r = None
         for p in parts:
             if p == "":
@@ -666,6 +668,16 @@ def m_startswith(ex, self, args, kw):
         return s.segs[0].startswith(p)
     if isinstance(p, str) and s.segs and isinstance(s.segs[0], Atom) and s.segs[0].forbidden(p[0]):
         return False
+    if isinstance(p, str) and p and s.segs and isinstance(s.segs[0], NameAtom) and not any(s.segs[0].forbidden(ch) for ch in p):
+        # a free name may or may not begin with the given literal: both are explored.  One question per name and path (two
+        # different prefixes of one name are related - 'ab' implies 'a' - which independent choices would not respect)
+        asked = ex.ctx.ghost.setdefault("name_prefix_asked", {})
+        key = id(s.segs[0].op)
+        if key in asked and asked[key][0] != p:
+            raise Unsupported("startswith: a second prefix question about the same symbolic name")
+        if key not in asked:
+            asked[key] = (p, ex.ctx.choose(2) == 1)
+        return asked[key][1]
     raise Unsupported("startswith on symbolic text")
 
 
